@@ -198,6 +198,11 @@ Crash ==
   /\ Chk("C19_NoCrash", FALSE)
   /\ Same
 
+Hang ==
+  /\ E.e = "RunHang"
+  /\ Chk("C19_Terminates", FALSE)
+  /\ Same
+
 Machinery ==
   /\ E.e = "Machinery"
   /\ Chk("B_Machinery", FALSE)
@@ -221,7 +226,7 @@ End ==
   /\ Same
 
 Next == /\ l <= Len(Traces[tid].ev)
-        /\ (Parse \/ FixStep \/ SetIndentStep \/ IdxStep \/ AnalyzeStep \/ NormStep \/ FixBegin \/ FixEnd \/ Reparse \/ Probe \/ Crash \/ Machinery \/ Other \/ End)
+        /\ (Parse \/ FixStep \/ SetIndentStep \/ IdxStep \/ AnalyzeStep \/ NormStep \/ FixBegin \/ FixEnd \/ Reparse \/ Probe \/ Crash \/ Hang \/ Machinery \/ Other \/ End)
         /\ l' = l + 1 /\ tid' = tid
 
 Spec == Init /\ [][Next]_vars
